@@ -184,7 +184,8 @@ def gen_calls(rng, lat, lspec, quick):
             between = [mps_sites[k % N] for k in range(i + 1, j)]
             strs = ['Id']
             for cand in ('Sz', 'N', 'JW'):
-                if all(cand in s.opnames and oc.neutral([(s, cand)]) for s in between) and between:
+                # "op_string should be defined on all sites in the unit cell" (needed for its hc name)
+                if between and all(cand in s.opnames and oc.neutral([(s, cand)]) for s in list(lat.unit_cell) + between):
                     strs.append(cand)
             calls.append({'f': f, 'strength': oc.rand_strength(rng, cplx), 'i': i, 'j': j, 'op_i': ops[0],
                           'op_j': ops[1], 'op_string': rng.choice(strs), 'plus_hc': ph})
@@ -265,10 +266,21 @@ def gen_case(rng, quick=True):
             continue
         if lat.N_sites < 2 and lspec['bc_MPS'] == 'finite':
             continue
-        case['calls'] = gen_calls(rng, lat, lspec, quick)
-        if case['explicit']:
-            # keep the part without plus_hc Hermitian in half of the explicit cases (flag-independence check)
-            pass
+        calls = gen_calls(rng, lat, lspec, quick)
+        # a coupling that wraps around a periodic direction of length 1 onto its own site is rejected by
+        # add_coupling_term ('need i < j'): not a valid input, drop such calls
+        good = []
+        for c in calls:
+            if c['f'] == 'add_coupling':
+                i, j, _, _ = lat.possible_couplings(c['u1'], c['u2'], np.array(c['dx']))
+                if any(a == b for a, b in zip(i, j)):
+                    continue
+            if c['f'] == 'add_multi_coupling':
+                ijkl = lat.possible_multi_couplings([(o, d, u) for o, d, u in c['ops']])[0]
+                if len(ijkl) and any(len(set(r)) == 1 for r in np.asarray(ijkl)):
+                    continue
+            good.append(c)
+        case['calls'] = good
         if case['calls']:
             return case
     raise RuntimeError('generator failed to produce a case')
